@@ -189,6 +189,7 @@ type Engine struct {
 	engineErrors []string
 	curAbstracted *bool
 	immutableHeap map[string]bool // heap array names of fields declared immutable
+	axiomsDone    bool
 }
 
 func (e *Engine) logAbs(format string, a ...interface{}) {
@@ -363,13 +364,21 @@ func (x *fnCtx) addVC(st *State, fnShort, kind string, ord int, sub string, goal
 	if x.collecting {
 		return
 	}
-	if goal == True || st.dead {
+	if st.dead {
 		return
 	}
 	e := x.eng
 	name := fmt.Sprintf("%s/%s/%s#%d", e.prop, fnShort, kind, ord)
 	if sub != "" {
 		name += "." + sub
+	}
+	if goal == True {
+		// decided by the generator's simplifier: recorded, discharged syntactically
+		switch kind {
+		case "post", "at_call", "at_store", "only_calls", "inv_init", "inv_keep", "step", "pre", "monitor", "lemma", "lockpost":
+			e.noteTrivial(name, fnShort, kind, ord, desc)
+		}
+		return
 	}
 	ob := e.obls[name]
 	if ob == nil {
